@@ -85,9 +85,9 @@ PROPS = {
     'C14': dict(level='proof', groups=['builder', 'parse', 'c14', 'purl', 'fmt'], kani=[], bounded=['protocol'],
         trusted=['R11: the ghost call-log parameter added to from_str, build(), T::from_str and finish in group c14 is erased at compile time (ghost code cannot influence executable results: Verus mode checking); the user-code stubs append one entry per call'],
         explanation='HISTORY AS GHOST STATE (group c14): from_str and build() are re-extracted with a ghost call log threaded through every call of T::from_str, finish and build() found in their bodies; the stubs of the two user traits append one entry per call. Proved for every T: FromStr + PurlShape and every string: build() appends exactly one Hook entry whatever its outcome; one parse appends nothing while the string is defective before the type (phase_a), else exactly one Conv entry carrying the type substring as written (valid_type: lemma_conv_arg_valid), followed by exactly one Hook entry only if the conversion returned Ok and the rest is well-formed (proto_ok). A second call, a call on another text, a call before validation or a hook call before the conversion fails this postcondition. The value side: Proved (Verus) for every T: FromStr + PurlShape: parse_post -- the conversion relation is consulted once, with exactly the syntactically valid type substring as written, never after an earlier defect; a conversion error is returned through From unchanged; then build_post: the generic checks applied to exactly ONE application of the hook relation; a hook error is returned unchanged; emptied name refused, empty qualifiers removed, checksum canonicalised or refused. Assumed inside build(): retain / try_get_typed wrappers. BOUNDED: 2 x 9 counting shapes x T_N on the compiled code.'),
-    'C15': dict(level='other', groups=['pkgtype'], kani=['package_type_names'], bounded=['names'],
+    'C15': dict(level='other', groups=['pkgtype', 'misc'], kani=['package_type_names'], bounded=['names'] + A,
         explanation='Complete on finite domains: the 7-variant name table (Kani + Verus: name() == type_name), all 192 case variants (enumerated). The converse over all strings rests on phf / UniCase '
-                    '(dependency); BOUNDED: strings <= 4 / 5 over the names\' letters plus look-alikes, one-edit neighbours, the spec\'s other type names.'),
+                    '(dependency). The equality half of that dependency is checked EXHAUSTIVELY per character on the real unicase code (suite assumptions, A.unicase_fold / A.unicase_eq: every Unicode scalar value -- an ASCII char folds to its lower-case form, a non-ASCII char never folds into letters of the names only, a one-char probe equals a one-letter key exactly when it is that letter in either ASCII case); that equality of strings is char-wise equality of the folded sequences, and that a phf hit ends in that equality test, are read off the dependency sources (not verified). BOUNDED: strings <= 4 / 5 over the names\' letters plus look-alikes, one-edit neighbours, the spec\'s other type names.'),
     'C16': dict(level='proof', groups=['serde', 'fmt', 'parse', 'c01'], kani=[], bounded=['serde'],
         trusted=['serde trait contracts (stubs in contracts/theory/serde.rs): collect_str hands over exactly the Display text as one string value; deserialize_str calls visit_str for a string value and a defaulted visit_* (refusing) otherwise; de::Error::custom',
                  'Display::fmt of GenericPurl is the hoisted purl_fmt proved in group fmt (R2)',
